@@ -36,4 +36,4 @@ def probe_f19(run, har):
 
 def main(tier, seed, replay=None):
     return sched_check(PROP, THEOREMS, tier, seed, [monitor_c06], extra_modules=["Model.All", "Proofs.SchedSpec", "Proofs.SchedInv", "Proofs.SchedLive", "Proofs.SchedRunThms"],
-                       replay=replay, probes=probe_f19)
+                       replay=replay, probes=probe_f19, scen_gen=gen_sched_or_regen)
